@@ -25,7 +25,7 @@ func body(r *ev.Run) {
 	r.Assume(
 		"peer book: the three handlers are called from one goroutine on a fresh peerState through the verif hook (as peerHandler does); peers are real serverPeers after a real version handshake over net.Pipe with a scripted remote end; the message listeners (OnVersion → AddPeer, sync manager) are not installed — admission is driven by the harness",
 		fmt.Sprintf("limits read from config: MaxPeers=%d MaxPeersPerIP=%d; weakest reading of the per-host limit: persistent peers are exempt from the per-host count (states where a host exceeds the limit when persistent peers are counted are reported as an informational counter only)", config.MaxPeers, config.MaxPeersPerIP),
-		"ban timing: the system under test reads the wall clock; 'still banned' is asserted with a 1 h ban only, 'ban elapsed' with a 1 ms ban followed by a 50 ms pause — never near the threshold; the re-ban cases use a 3 s ban: 'elapsed' after 3.5 s, 'banned again' only when the admission verdict came less than 1.5 s after the second ban (else inconclusive)",
+		"ban timing: the system under test reads the wall clock; 'still banned' is asserted with a 1 h ban only, 'ban elapsed' with a 1 ms ban followed by a 50 ms pause — never near the threshold; the re-ban cases use a 3 s ban: 'elapsed' after 3.5 s, 'banned again' only when the admission verdict came less than 1.5 s after the second ban (else inconclusive); another peer of the host asks 2.6 s into that 3 s ban and must be refused if the verdict arrives less than 2.9 s after the clock reading that preceded the ban",
 		"address manager (monitor 3): address books of 2300-3200 addresses of one group found good one after the other (the tried buckets of a group hold 2048), all banned afterwards, one good address of another group left: GetAddress returns it, every time; seeded sequences of AddAddresses/Attempt/Good/Connected/BanAddress/GetAddress on the real addrmgr; a GetAddress call that has not returned after 3 s + 25 s is reported (it spins under the manager's lock)",
 		"connection manager: bounded progress — 'stopped dialling' means no Dial/GetNewAddress/OnConnection/Close activity for 200 retry intervals (1 ms each); a miss is only reported after a confirming re-run with a 5x longer window; Remove()d connections are not expected to be replaced; permanent (backoff) requests are not exercised",
 	)
@@ -82,6 +82,7 @@ func body(r *ev.Run) {
 	r.Require("book_events_ban", 50)
 	r.Require("book_refused_banned", 20)
 	r.Require("book_refused_after_second_ban", 8)
+	r.Require("book_refused_late_in_the_ban", 6)
 	r.Require("book_refused_perhost", 50)
 	r.Require("book_refused_total", 10)
 	r.Require("book_readmitted_after_ban_elapsed", 10)
